@@ -58,6 +58,20 @@ PROPS = {
         "technique": "translator (clang AST -> Lean BitVec) + Lean 4 proof over all bit patterns + differential validation",
         "partial": ["double->float rounding at API entry is hardware behaviour (trusted)", "MT-real terminal precision rounding (1e-5) modelled in the acceptor only"],
     },
+    "C18": {
+        "title": "Memory managers never hand out overlapping or corrupted chunks",
+        "theorems": ["Meddly.MemMan." + t for t in [
+            "alloc_no_overlap", "alloc_size_ok", "live_stable", "reuse_only_after_recycle",
+            "tiling_inv", "tiling_refines_alloc", "tiling_run_refines_alloc",
+            "freelist_refines_alloc", "freelist_run_refines_alloc", "live_contents_untouched"]],
+        "quick": [fam("memman")],
+        "thorough": [fam("memman", "asan")],
+        "leanchecker": ["MeddlyModel.State.MemMan"],
+        "level_text": "Specification automaton Alloc (live chunks; request legal iff got>=want and the extent is disjoint from every live chunk; recycle legal iff exactly that chunk is live) with theorems for EVERY accepted trace: no overlap, size ok, a chunk stays live and unmoved until recycled, memory is handed out again only after a recycle, live contents untouched. Refinement models Tiling (orig grid / array+grid / heap: arena tiled by live chunks and holes, any sufficient hole may be taken, coalescing) and FreeList, each proved to preserve its invariant and to refine Alloc. Tie: trace validation - the harness drives all five real managers (granularity 4 and 8) with request/recycle histories, sentinels in every slot re-read after every step; the Lean acceptor validates every handle against Alloc.legal / Tiling.step / FreeList.step and every arena scan against Tiling.inv.",
+        "level_note": "The hole-index structures' choice of hole is nondeterminism of the model (not predicted, validated). Out-of-bounds writes by a manager are exhibited by the sentinels and by ASan (thorough tier), not by a theorem. Out-of-memory paths and granularity 2 are not exercised.",
+        "technique": "Lean 4 proof (invariants by induction over traces, refinement) + trace validation against the real managers",
+        "partial": ["index structures (grid/heap) not modelled: their choice is the nondeterminism", "OOM / max_handle failure paths not exercised"],
+    },
 }
 
 NOT_YET = {}
